@@ -560,6 +560,55 @@ func c18Template(c *core.Ctx) {
 		})
 	}
 	c.Check(nCallers >= 2, "authExternal has backend and frontend callers", "", "", fmt.Sprintf("%d callers", nCallers))
+	// The condition handed to authExternal selects the declared paths and nothing else: every term it is
+	// built from is reviewed. Any further term (a method exemption, a header test) ANDed into the
+	// condition lets the requests that do not satisfy it through unauthenticated.
+	allowed := map[string]map[string]bool{
+		"authExternalFrontend": {`str:{ var(req.base) -m str %s '%s' }`: true, "fn:printf": true, "fn:map": true, "var:$path.AuthExt": true, "var:$path.Link.HAMatch": true, "var:$path.Link.Key": true},
+		"*": {`str:`: true, `str:{ var(txn.pathID) -m str %s }`: true, "fn:printf": true, "fn:iif": true, "fn:eq": true, "fn:map": true, "var:$auth": true, "var:$pathIDs": true},
+	}
+	for _, name := range t.TreeNames() {
+		t.Walk(name, func(n core.TNode) {
+			tn, ok := n.Node.(*parse.TemplateNode)
+			if !ok || tn.Name != "authExternal" || tn.Pipe == nil {
+				return
+			}
+			al := allowed[name]
+			if al == nil {
+				al = allowed["*"]
+			}
+			var extra []string
+			var walk func(nd parse.Node)
+			walk = func(nd parse.Node) {
+				switch x := nd.(type) {
+				case *parse.PipeNode:
+					for _, cmd := range x.Cmds {
+						walk(cmd)
+					}
+				case *parse.CommandNode:
+					for _, a := range x.Args {
+						walk(a)
+					}
+				case *parse.StringNode:
+					if !al["str:"+x.Text] {
+						extra = append(extra, "string `"+x.Text+"`")
+					}
+				case *parse.IdentifierNode:
+					if !al["fn:"+x.Ident] {
+						extra = append(extra, "function "+x.Ident)
+					}
+				case *parse.VariableNode:
+					if !al["var:"+strings.Join(x.Ident, ".")] {
+						extra = append(extra, "variable "+strings.Join(x.Ident, "."))
+					}
+				case *parse.FieldNode, *parse.ChainNode, *parse.DotNode, *parse.BoolNode, *parse.NumberNode:
+					extra = append(extra, "term `"+nd.String()+"`")
+				}
+			}
+			walk(tn.Pipe)
+			c.Check(len(extra) == 0, "authExternal caller passes only the path selection: "+name, fmt.Sprintf("haproxy.tmpl:%d", n.Line), "", "the condition handed to authExternal is built from terms outside the reviewed path selection ("+strings.Join(extra, ", ")+"): requests that fail the extra term are served without the authentication call")
+		})
+	}
 }
 
 // alternativeBranch: b is the else-branch sibling of a (same guards, last one if<->else of the same pipeline).
